@@ -42,6 +42,8 @@ type Contract struct {
 	File     string
 	Line     int
 	NoSafety bool
+	Reveal   []string
+	Implements string // key of the interface contract this method must satisfy
 }
 
 type letDef struct {
@@ -55,6 +57,7 @@ type SpecFunc struct {
 	Result  string
 	Body    string // "" = uninterpreted or raw
 	Raw     bool   // declared by a raw smt block
+	Opaque  bool   // uninterpreted in function VCs unless revealed; defined in lemma proofs
 	RawName string
 	File    string
 	Line    int
@@ -70,9 +73,12 @@ type GhostVar struct {
 }
 
 type Axiom struct {
-	Name string
-	Expr string
-	Pkg  string
+	Name   string
+	Expr   string
+	Pkg    string
+	Lemma  bool     // proved by its own obligation (with the opaque definitions revealed)
+	Props  []string // properties whose checks include the lemma's proof obligation
+	Reveal []string
 }
 
 type Specs struct {
@@ -98,7 +104,7 @@ var (
 var clauseKeywords = map[string]bool{
 	"property": true, "requires": true, "ensures": true, "assigns": true, "loop": true, "let": true,
 	"trusted": true, "pure": true, "fresh": true, "effects": true, "safety": true, "nosafety": true,
-	"spec": true, "ghost": true, "axiom": true, "smt": true, "func": true, "extern": true, "iface": true, "const": true, "end": true,
+	"implements": true, "spec": true, "ghost": true, "axiom": true, "lemma": true, "reveal": true, "smt": true, "func": true, "extern": true, "iface": true, "const": true, "end": true,
 }
 
 // parseContractFile reads every //@ line of a file.
@@ -135,6 +141,7 @@ func (sp *Specs) parseContractFile(path string, pkgPath string) error {
 		lines = append(lines, line{t, n})
 	}
 	var cur *Contract
+	var curLemma *Axiom
 	for _, ln := range lines {
 		t := ln.text
 		fields := strings.Fields(t)
@@ -159,16 +166,20 @@ func (sp *Specs) parseContractFile(path string, pkgPath string) error {
 				}
 				continue
 			}
-			raw := false
+			raw, opaque := false, false
 			if i := strings.Index(t, "# smt"); i >= 0 {
 				raw = true
+				t = strings.TrimSpace(t[:i])
+			}
+			if i := strings.Index(t, "# opaque"); i >= 0 {
+				opaque = true
 				t = strings.TrimSpace(t[:i])
 			}
 			m := reSpecFunc.FindStringSubmatch(t)
 			if m == nil {
 				return fmt.Errorf("%s:%d: bad spec func: %s", path, ln.n, t)
 			}
-			sf := &SpecFunc{Name: m[1], Result: strings.TrimSpace(m[3]), Body: strings.TrimSpace(m[4]), Raw: raw, File: path, Line: ln.n}
+			sf := &SpecFunc{Name: m[1], Result: strings.TrimSpace(m[3]), Body: strings.TrimSpace(m[4]), Raw: raw, Opaque: opaque, File: path, Line: ln.n}
 			for _, p := range splitTop(m[2], ',') {
 				p = strings.TrimSpace(p)
 				if p == "" {
@@ -191,14 +202,20 @@ func (sp *Specs) parseContractFile(path string, pkgPath string) error {
 			} else {
 				return fmt.Errorf("%s:%d: bad ghost decl", path, ln.n)
 			}
-		case "axiom":
+		case "axiom", "lemma":
 			cur = nil
+			curLemma = nil
 			nm, ex, ok := strings.Cut(rest, ":")
 			if !ok {
-				return fmt.Errorf("%s:%d: axiom needs a name", path, ln.n)
+				return fmt.Errorf("%s:%d: %s needs a name", path, ln.n, kw)
 			}
-			sp.Axioms = append(sp.Axioms, &Axiom{Name: strings.TrimSpace(nm), Expr: strings.TrimSpace(ex), Pkg: pkgPath})
+			ax := &Axiom{Name: strings.TrimSpace(nm), Expr: strings.TrimSpace(ex), Pkg: pkgPath, Lemma: kw == "lemma"}
+			sp.Axioms = append(sp.Axioms, ax)
+			if ax.Lemma {
+				curLemma = ax
+			}
 		case "func", "extern", "iface":
+			curLemma = nil
 			cur = &Contract{Kind: kw, Pkg: pkgPath, File: path, Line: ln.n}
 			name := rest
 			// optional explicit parameter names:  NAME(a, b, c)   (receiver first)
@@ -220,6 +237,14 @@ func (sp *Specs) parseContractFile(path string, pkgPath string) error {
 		case "end":
 			cur = nil
 		default:
+			if cur == nil && curLemma != nil && (kw == "property" || kw == "reveal") {
+				if kw == "property" {
+					curLemma.Props = append(curLemma.Props, strings.Fields(rest)...)
+				} else {
+					curLemma.Reveal = append(curLemma.Reveal, strings.Fields(rest)...)
+				}
+				continue
+			}
 			if cur == nil {
 				return fmt.Errorf("%s:%d: clause %q outside a contract block", path, ln.n, kw)
 			}
@@ -272,6 +297,10 @@ func (sp *Specs) parseContractFile(path string, pkgPath string) error {
 						cur.Assigns = append(cur.Assigns, strings.TrimSpace(a))
 					}
 				}
+			case "reveal":
+				cur.Reveal = append(cur.Reveal, strings.Fields(body)...)
+			case "implements":
+				cur.Implements = canonKey("iface", body, pkgPath)
 			case "trusted":
 				cur.Trusted = true
 			case "pure":
@@ -386,6 +415,13 @@ func loadSpecs(repo, verif string, notes *[]string) (*Specs, error) {
 	})
 	if err != nil {
 		return nil, err
+	}
+	for _, ct := range sp.Contracts {
+		if ct.Implements != "" {
+			if ict := sp.Contracts[ct.Implements]; ict != nil {
+				ct.Props = unionProps(ct.Props, ict.Props)
+			}
+		}
 	}
 	return sp, nil
 }
